@@ -8,7 +8,7 @@ Open Scope Z_scope.
 
 Definition sx_cfg (s : sexp) : cfg :=
   Cfg (sx_bool (sx_nth 0 s)) (sx_bool (sx_nth 1 s)) (sx_bool (sx_nth 2 s)) (sx_bool (sx_nth 3 s)) (sx_bool (sx_nth 4 s))
-      (sx_bool (sx_nth 5 s)) (sx_bool (sx_nth 6 s)).
+      (sx_bool (sx_nth 5 s)) (sx_bool (sx_nth 6 s)) (sx_bool (sx_nth 7 s)).
 
 Definition sx_id (s : sexp) : id :=
   if sx_Z (sx_nth 0 s) =? 0 then IdInt (sx_Z (sx_nth 1 s)) else IdStr (sx_str (sx_nth 1 s)).
